@@ -105,10 +105,21 @@ def make_values(recipe):
         vals = rng.uniform(0, 1, (npos, nf, ndd))
     elif kind == "decades":
         vals = 10.0 ** rng.uniform(-6, 2, (npos, nf, ndd))
+    elif kind == "huge":
+        vals = 10.0 ** rng.uniform(2, 7, (npos, nf, ndd))
+    elif kind == "tiny":
+        vals = 10.0 ** rng.uniform(-14, -9, (npos, nf, ndd))
+    elif kind == "single_bin":
+        vals = np.zeros((npos, nf, ndd))
+        for p in range(npos):
+            vals[p, rng.integers(nf), rng.integers(ndd)] = rng.choice([1e-3, 0.7, 42.0, 9999.0])
     else:
         raise ValueError(kind)
     za = int(d.get("zero_at", -1))
     na = int(d.get("nan_at", -1))
+    ca = int(d.get("calm_at", -1))
+    if 0 <= ca < npos:
+        vals[ca] = vals[ca] * float(d.get("calm_scale", 1e-7))     # a dead-calm spectrum among ordinary ones
     if 0 <= za < npos:
         vals[za] = 0.0
     if 0 <= na < npos:
@@ -118,8 +129,12 @@ def make_values(recipe):
 
 def coord_values(name, n, recipe):
     if name == "time":
-        t0 = np.datetime64(recipe.get("t0", "2020-01-01T00:00:00"), "ns")
+        t0 = np.datetime64(recipe.get("t0", "2020-01-01T00:00:00"), recipe.get("time_unit", "ns"))
         step = int(recipe.get("dt_s", 3600))
+        if recipe.get("time_irregular") and n > 2:
+            rng = np.random.default_rng(int(recipe.get("data", {}).get("seed", 0)) + 31)
+            k = np.concatenate([[0], np.cumsum(rng.integers(1, 5, n - 1))])      # strictly increasing, uneven steps
+            return t0 + k * np.timedelta64(step, "s")
         return t0 + np.arange(n) * np.timedelta64(step, "s")
     if name == "site":
         return np.arange(1, n + 1)
